@@ -5,6 +5,7 @@ import (
 	"errors"
 	"fmt"
 	"io"
+	"math"
 	"os"
 	"slices"
 	"strconv"
@@ -124,10 +125,16 @@ func NewDriver(opts ...DriverOpt) *Driver {
 		actual.search = search.New(1 * transp.MegaBytes)
 	}
 
+	// a command line has no length limit in the protocol (a long game in
+	// `position ... moves ...`); the default 64 KiB token limit of the scanner
+	// would silently end the input loop on such a line.
+	input := bufio.NewScanner(actual.input)
+	input.Buffer(make([]byte, 0, bufio.MaxScanTokenSize), math.MaxInt)
+
 	return &Driver{
 		board:  board.StartPos(),
 		search: actual.search,
-		input:  bufio.NewScanner(actual.input),
+		input:  input,
 		output: newOutput(actual.output, nil),
 		err:    actual.err,
 	}
